@@ -162,6 +162,12 @@ theorem nextPhase_pos (ph : Nat) (s' : CState Content MetaRec WalRec LogRec) (ev
     (h : 1 ≤ ph) : 1 ≤ nextPhase ph s' ev := by
   cases ev <;> simp only [nextPhase] <;> (try split) <;> omega
 
+theorem phRun_pos (ph : Nat) (s : CState Content MetaRec WalRec LogRec) (ct : List (CEv Content MetaRec WalRec LogRec))
+    (h : 1 ≤ ph) : 1 ≤ phRun ph s ct := by
+  induction ct generalizing ph s with
+  | nil => exact h
+  | cons ev ct ih => exact ih _ _ (nextPhase_pos ph _ ev h)
+
 /-- once the switch-over was issued, an accepted trace contains no further meta write -/
 theorem no_meta_after (ph : Nat) (s : CState Content MetaRec WalRec LogRec)
     (ct : List (CEv Content MetaRec WalRec LogRec)) (hph : 1 ≤ ph) (h : cAll (accChk A0 ok) ph s ct) :
